@@ -47,7 +47,7 @@ fn main() {
     .assume("The empty needle matches at every offset 0..len (common behaviour of CompressedDocument and ReferenceDocument; the docs are silent); a needle longer than the text matches nowhere.")
     .assume("lookup is compared for text offsets 0..len only. For offsets > len ReferenceDocument answers the last record and CompressedDocument answers Err; the docs are silent, so only absence of panics is required there.")
     .assume("retrieve / offset_of of a record number >= records() must be an error (the variants differ between implementations and are not compared).")
-    .assume("There is no pack method on a live document: 'serialise' is construct(), which writes the bytes; re-parsing is unpack() of those bytes, also from a copy at another address and alignment. Constructing twice must give identical bytes.")
+    .assume("There is no pack method on a live document: 'serialise' is construct(), which writes the bytes; re-parsing is unpack() of those bytes, also from a copy at another address and alignment. The document is constructed twice; both constructions must answer every query as the naive scan does. Whether their bytes are identical is recorded as a label only (not part of the property).")
     .assume("BitVector semantics as documented and as the crate's own tests state them: access(x) is Some for x < len; rank(x) counts set bits below x for x in 0..=len and is None beyond; select(0) = Some(0), select(k) = one past the k-th set bit, None for k > count; select0 / rank0 likewise for unset bits.")
     .assume("access_rank(len) is None for reference / rrr and Some((false, count)) for sparse / cf_rrr; both are accepted, a set bit or a wrong rank is not.")
     .assume("sparse::BitVector::from_indices is driven with fan-outs 4, 5, 16, 17, 128, 255 (documented range 4..256) and indices strictly below len.")
